@@ -247,7 +247,7 @@ class Buffer:
             getattr(rep, kind)(*a, **k)
 
 
-def with_flatten_fallback(rep, fn, body) -> None:
+def with_flatten_fallback(rep, fn, body, select=None) -> None:
     """Run `body(fn, reporter)` on the function as written.  If that reports a violation / analysis error and the function calls local
     helpers, run it again on the flattened function (sa/flatten.py: helper calls inlined - the semantically identical program with
     "extract method" undone) and take that result when it is entirely clean.  A real defect is reported by both views."""
@@ -263,12 +263,19 @@ def with_flatten_fallback(rep, fn, body) -> None:
     if b1.n_bad == 0 and err1 is None:
         b1.replay(rep)
         return
-    f2 = flatten(fn)
-    if f2 is not fn:
+    def _viol_keys(b) -> set:
+        return {a[2] for kind, a, k in b.items if kind == "violation" and len(a) > 2}
+
+    for sel in ([select, None] if select is not None else [None]):
+        f2 = flatten(fn, select=sel)
+        if f2 is fn:
+            continue
         b2 = Buffer()
         try:
             body(f2, b2)
-            if b2.n_bad == 0:
+            # accepted when entirely clean - or when flattening only *removed* reports: every violation it still has is one the function as
+            # written has too (same key; e.g. a listed known finding), and it has no analysis error
+            if b2.n_bad == 0 or (not any(kind == "error" for kind, _, _ in b2.items) and _viol_keys(b2) <= _viol_keys(b1)):
                 b2.replay(rep)
                 return
         except AnalysisError:
